@@ -35,6 +35,7 @@ func ruleC05(w *World, r *Report) {
 		"R05.3 UP4 sendDelete reaches the release of counter cells, both meter cells of each meter kind, tunnel-peer references, application references and UE-address mappings on its success path; R05.4 the session store hands out rule slices that do not share backing arrays with the stored value (a rejected modification cannot edit the stored rules), and RemoveSession pairs the gauge decrement with the store delete under the local SEID."
 	r.Explanation += " R05.6 the session copy handed to the deletion paths copies each rule list in full (no fixed-length target), and Remove{PDR,FAR,QER} return the removed rule by value, not a pointer into the list they have shifted. R05.7 UpdatePDR carries the allocation marks of the stored PDR over; R05.8 failing exits of addOrUpdateGTPTunnelPeer give a new peer's ID back effectively; R05.9 the UP4 status filter, interpreted per status × method, tolerates NOT_FOUND on DELETE (shared sessions entry); R05.10 the marks of a PDR removed by a modification are examined; R05.11 the UE address is released under the condition it was allocated under; R05.12 an Update FAR that moves the tunnel drops the reference on the previous peer; R05.13 the rejecting exits of the modification handler after a Create PDR was parsed release the address that parse may have allocated."
 	r.Explanation += " R05.14 = C01 R01.J1 (each iteration attaches its rule to the session); R05.15 BESS workers never report false; R05.16 = C04 R04.12 on the DELETE path."
+	r.Explanation += " R05.17 = C06 R06.7; R05.18 = C06 R06.6 (a UE address is released only where its session ends); R05.19 releaseCounterID puts the cell back on every path (the counter pool starts at 0)."
 	r.NotDecided = "'N attach/detach cycles never exhaust a pool' as arithmetic (a consequence of pairing); releases inside third-party containers"
 	cg := w.CG()
 	remove := w.Fn(P, "pfcpiface.(*PFCPConn).RemoveSession")
